@@ -3,7 +3,7 @@ from engine import Query
 META = {
  'functions': ['Digit::StringToNumber / stringToNumber (Digit.hpp:204-540)', 'Digit::parseExponent (Digit.hpp:674-723)',
                'call sites of Digit::powerOfPositiveTen / powerOfNegativeTen (contract stubs: arguments recorded, result arbitrary)'],
- 'bounds': 'scan: every numeral of concrete length L <= 6 (quick) / 10 (thorough) over [0-9+-.eE] plus one arbitrary unit (not x/X), 3 unit widths: '
+ 'bounds': 'scan: every numeral of concrete length L <= 6 (quick) / 8 (thorough) over [0-9+-.eE] plus one arbitrary unit (not x/X), 3 unit widths: '
            'rejection, consumed length, integer results, +-0, and the (mantissa, decimal exponent) pair handed to the power kernels (exact rational '
            'equality with the reference), out-of-range numerals (>= 2^1024) rejected or infinite. int: 19/20/21-digit integer numerals with the '
            'leading 14-16 digits pinned to windows around 2^63, 2^64, 10^20-1 and 10^20, trailing 5 digits symbolic, with and without minus sign. '
@@ -35,14 +35,14 @@ def kf(defs, excl=(), only=None):
         if only: d['KF_ONLY_' + only.replace('-', '_')] = 1
     return d
 def queries(tier):
-    N = 6 if tier == 'quick' else 10
+    N = 6 if tier == 'quick' else 8      # cost grows ~3x per unit: L6 90 s, L7 ~5 min, L8 ~15-25 min (sat); L10 had no verdict in 900 s
     qs = []
     for ch in ('char', 'char16_t', 'char32_t'):
         for L in range(1, N + 1):
             b = {'stringToNumber': L + 1, 'parseExponent': L + 1, 'ref_scan': L + 1, 'h_scan': L + 1, 'vf_buf.*': L + 1}
             ex = ['C09-overflow-finite', 'C09-zero-exponent']
             qs.append(Query('scan/%s/L%d' % (ch, L), 'C09_scan.cpp', 'h_scan', kf({'LEN': L, 'CHAR': ch}, ex), bounds=b, stubs=STUBS,
-                            cflags=PRIV, kf_excl=ex, timeout=600, mem_gb=8))
+                            cflags=PRIV, kf_excl=ex, timeout=600 if L <= 6 else 3000, mem_gb=8))
         # known findings inside the scanner window (expected counterexamples)
         qs.append(Query('scan/%s/L5/kf-overflow' % ch, 'C09_scan.cpp', 'h_scan', kf({'LEN': 5, 'CHAR': ch}, ['C09-zero-exponent'], 'C09-overflow-finite'),
                         bounds={'stringToNumber|parseExponent|ref_scan|h_scan|vf_buf.*': 6}, stubs=STUBS, cflags=PRIV,
